@@ -860,6 +860,31 @@ impl Builder {
 
 include!("autogen_norm_insts.rs");
 
+/// Verification hooks (compiled only under `cfg(kani)` / `--cfg rspirv_verif`).
+#[cfg(any(kani, rspirv_verif))]
+impl Builder {
+    /// Builds a `Builder` directly from its parts, so that a check can start from an
+    /// arbitrary state instead of replaying a call history.
+    pub fn verif_from_parts(
+        module: dr::Module,
+        next_id: u32,
+        selected_function: Option<usize>,
+        selected_block: Option<usize>,
+    ) -> Builder {
+        Builder {
+            module,
+            next_id,
+            selected_function,
+            selected_block,
+        }
+    }
+
+    /// Returns the id counter without changing it.
+    pub fn verif_next_id(&self) -> u32 {
+        self.next_id
+    }
+}
+
 #[cfg(test)]
 mod tests {
     use crate::dr;
